@@ -37,7 +37,11 @@ def build_manifest() -> dict:
   checks = []
   claimed = set()
   na = []
+  ready_file = VERIF / 'claimed.txt'      # maintained by hand: ids whose checks are finished
+  ready = set(ready_file.read_text().split()) if ready_file.exists() else set()
   for pid, name in mods.items():
+    if pid not in ready:
+      continue
     mod = importlib.import_module(name)
     meta = getattr(mod, 'META', None)
     if not meta or meta.get('not_applicable'):
